@@ -43,10 +43,11 @@ Lemma le_unle b : le (length b) (unle b) = b.
 Proof.
   induction b as [|x b IH]; [easy|].
   cbn [length le unle]. f_equal.
-  - rewrite <- (n2b_b2n x) at 2. unfold n2b. f_equal.
-    rewrite N.add_comm, N.mul_comm, N.mod_add by lia. rewrite N.mod_small by apply b2n_lt.
-    rewrite N.mod_small by apply b2n_lt. reflexivity.
-  - rewrite N.add_comm, N.mul_comm, N.div_add_l by lia.
+  - rewrite <- (n2b_b2n x) at 2. unfold n2b.
+    replace ((b2n x + 256 * unle b) mod 256) with (b2n x mod 256); [reflexivity|].
+    rewrite N.add_comm, N.mul_comm, N.mod_add by lia. reflexivity.
+  - replace ((b2n x + 256 * unle b) / 256) with (unle b); [exact IH|].
+    rewrite N.add_comm, N.mul_comm, N.div_add_l by lia.
     rewrite (N.div_small (b2n x)) by apply b2n_lt. now rewrite N.add_0_r.
 Qed.
 
